@@ -1,10 +1,8 @@
 SPECIFICATION Spec
 CONSTANTS
+  Users = {"u2", "u3"}
   MaxLen = 4
   Emit = FALSE
-  Assets = {"ETH", "ETHZ", "ETHe", "ETHelys"}
-  Sources = {"elys", "band", "lys", "x"}
-  Gaps = {5, 61}
 INVARIANTS InvHolds
 PROPERTIES StepOK
 VIEW View
